@@ -916,3 +916,13 @@ VARIANTS['C16'] += [
       [('dashlive/server/requesthandler/manifest_context.py', "        self.profiles = [primary_profiles[options.mode]]\n",
         "        if options.mode == 'live':\n            self.profiles = [primary_profiles['live']]\n        else:\n            self.profiles = [primary_profiles[options.mode]]\n")], None),
 ]
+
+VARIANTS['C15'] += [
+    V('check side signs the origin after the salt (order differs from the issue side)',
+      [('dashlive/server/requesthandler/csrf.py', "        sig.update(bytes(service, 'utf-8'))\n        if strict_origin:\n            sig.update(bytes(origin, 'utf-8'))\n        # logging.debug(\"check_csrf Referer: {}\".format(flask.request.headers['Referer']))\n        sig.update(bytes(salt, 'utf-8'))\n",
+        "        sig.update(bytes(service, 'utf-8'))\n        sig.update(bytes(salt, 'utf-8'))\n        if strict_origin:\n            sig.update(bytes(origin, 'utf-8'))\n")],
+      'R15.4', 'CsrfProtection.check'),
+    V('neutral: check side feeds the signature parts from a conditional tuple',
+      [('dashlive/server/requesthandler/csrf.py', "        sig.update(bytes(service, 'utf-8'))\n        if strict_origin:\n            sig.update(bytes(origin, 'utf-8'))\n        # logging.debug(\"check_csrf Referer: {}\".format(flask.request.headers['Referer']))\n        sig.update(bytes(salt, 'utf-8'))\n",
+        "        for part in ((service, origin, salt) if strict_origin else (service, salt)):\n            sig.update(bytes(part, 'utf-8'))\n")], None),
+]
